@@ -448,3 +448,51 @@ func Race(timeout time.Duration, jobs map[string][2]string, stats *SolverStats) 
 	}
 	return best, who
 }
+
+// CheckFresh decides sat(pc ∧ extra) in a reset solver context (non-incremental strategy:
+// z3 then uses its bit-blasting tactic pipeline, which is much faster on arithmetic-heavy queries).
+func (s *Solver) CheckFresh(pc []*Term, extra *Term) string {
+	t0 := time.Now()
+	defer func() {
+		d := time.Since(t0)
+		s.Stats.Time += d
+		s.Stats.PerSolver[s.kind+"-fresh"] += d
+	}()
+	s.Stats.Queries++
+	script := "(reset)\n"
+	if s.kind != "cvc5" {
+		script += fmt.Sprintf("(set-option :timeout %d)\n", s.timeout)
+	}
+	script += scriptBV(pc, extra, s.kind == "cvc5")
+	s.send(script)
+	s.stack = nil
+	s.pr = NewPrinter()
+	res, err := s.readLine()
+	for err == nil && (res == "" || strings.HasPrefix(res, "(warning")) {
+		res, err = s.readLine()
+	}
+	// restore the incremental context options
+	hdr := "(reset)\n(set-option :global-declarations true)\n(set-option :produce-models true)\n"
+	if s.kind == "cvc5" {
+		hdr = "(reset)\n(set-logic ALL)\n(set-option :global-declarations true)\n(set-option :produce-models true)\n"
+	} else {
+		hdr += fmt.Sprintf("(set-option :timeout %d)\n", s.timeout)
+	}
+	if err != nil || strings.HasPrefix(res, "(error") || (res != "sat" && res != "unsat" && res != "unknown" && res != "timeout") {
+		s.Stats.Errors++
+		s.restart()
+		s.Stats.Unknown++
+		return "unknown"
+	}
+	s.send(hdr)
+	switch res {
+	case "sat":
+		s.Stats.Sat++
+	case "unsat":
+		s.Stats.Unsat++
+	default:
+		s.Stats.Unknown++
+		res = "unknown"
+	}
+	return res
+}
